@@ -12,7 +12,7 @@ HARNESS_PKGS = {
 
 ADV_DEFAULTS = dict(MinDelay=6, MaxRADelay=1, InitCap=32, InitCount=3, MinIv=7, MaxIv=8, ChanCap=2, Retries=2,
                     BackoffUnit=1, UnicastOnly="FALSE", CfgLife=1800, Hosts='{"h1"}', Kinds="{}", MaxIn=2, MaxT=10,
-                    MaxFlips=0, MaxHolds=0, WriteFaults="FALSE", LinkFaults="FALSE", AllowCancel="TRUE")
+                    MaxFlips=0, MaxHolds=0, WriteFaults="FALSE", LinkFaults="FALSE", AllowCancel="TRUE", Sec=1)
 ADV_INVARIANTS = "Req TypeOK C08_Prompt C08_NothingRunsAfterReturn C09_Alive C10_NoHalfAlive C10_NoLeak"
 
 ENV_DEFAULTS = dict(Srcs='{"unspec"}', Kinds="{}", HoldDsts="{}", FailDsts="{}", Terms="{}", MaxFlips=0, MaxEv=3,
@@ -140,7 +140,7 @@ def run_scenarios(tmp, scenarios, tag, timeout=1800, nshards=None):
     return outs
 
 
-TRACE_CONSTS = dict(MinDelay=3000, MaxRADelay=500, BackoffUnit=50, Retries=5, InitCap=16000)
+TRACE_CONSTS = dict(MinDelay=3000, MaxRADelay=500, BackoffUnit=50, Retries=5, InitCap=16000, InitCount=3, Sec=1000)
 
 
 def validate(tmp, out_files, tag, ifis=("vf0",), consts=None, lines_per_batch=60000):
